@@ -1,7 +1,410 @@
-(** C10 — placeholder, replaced when the helper proofs are in. *)
-From Asn1V Require Import Base.Prelude CGen.Helpers CGen.OerHelpers CGen.GenLogicOer CGen.GenLogicOerProofs.
+(** C10 — Generated OER C code is equivalent to the Python OER codec and
+    memory-safe.  STATEMENTS ONLY; proofs are in CGen/OerHelpersProofs.v,
+    CGen/OerHelpersTie.v, CGen/OerHelpersIrTie.v, CGen/GenLogicOerProofs.v.
+
+    Proved: properties of the model (CGen/OerHelpers.v) of the helper block that
+    every generated OER source contains, the equality of that model with the IR
+    translation of the helper C text of /repo (regenerated on this run), and
+    the static length arithmetic of the generator.  NOT proved: equivalence of
+    the generated per-type functions with the Python OER codec, skipping of
+    unknown extension additions, memory safety of the binary - those are
+    explored by harness/c10.py (see notes/C10.md). *)
+From Asn1V Require Import Base.Prelude CGen.Helpers CGen.HelpersSpec CGen.OerHelpers CGen.OerHelpersSpec.
+From Asn1V Require Import CGen.OerHelpersProofs CGen.OerHelpersTie CGen.GenLogic CGen.GenLogicOer CGen.GenLogicOerProofs.
+From Asn1V Require Import CGen.Ir CGen.HelpersIrTie CGen.OerHelpersIrTie Oer.X696.
+From Asn1Gen Require Import OerHelpers OerHelpersIr.
+
+(** * The helper model: in bounds, latch, X.696 octets, round trips *)
+
+Theorem C10_oer_helpers_in_bounds_enc : forall os s, owf s -> Forall oeop_ok os ->
+  exists s', run_oeops s os = COk s' /\ owf s' /\ length (buf s') = length (buf s) /\ (olatched s -> s' = s).
+Proof. exact oer_helpers_in_bounds_enc. Qed.
+Print Assumptions C10_oer_helpers_in_bounds_enc.
+
+Theorem C10_oer_enc_overflow_latches : forall s o, olive s -> oeop_ok o -> oeop_is_abort o = false ->
+  size s < pos s + oeop_bytes o ->
+  exists s', run_oeop s o = COk s' /\ olatched s' /\ oget_result s' = - ENOMEM.
+Proof. exact oer_enc_overflow_latches. Qed.
+Print Assumptions C10_oer_enc_overflow_latches.
+
+Theorem C10_oer_enc_latch_sticky : forall os1 os2 s s1, owf s -> Forall oeop_ok (os1 ++ os2) ->
+  run_oeops s os1 = COk s1 -> olatched s1 -> run_oeops s (os1 ++ os2) = COk s1.
+Proof. exact oer_enc_latch_sticky. Qed.
+Print Assumptions C10_oer_enc_latch_sticky.
+
+Theorem C10_oer_helpers_match_x696 : forall os s, olive s -> Forall oeop_ok os -> ono_abort os ->
+  pos s + ototal_bytes os <= size s ->
+  exists s', run_oeops s os = COk s' /\ olive s' /\ size s' = size s /\
+             pos s' = pos s + ototal_bytes os /\
+             owritten s' = owritten s ++ flat_map oeop_spec os.
+Proof. exact oer_helpers_match_x696. Qed.
+Print Assumptions C10_oer_helpers_match_x696.
+
+Theorem C10_oer_helpers_in_bounds_dec : forall os s, owf s -> Forall odop_ok os ->
+  exists s' vs, run_odops s os = COk (s', vs) /\ owf s' /\ buf s' = buf s /\ (olatched s -> s' = s) /\
+    Forall2 (fun o v => match o with RBytes cap _ => len v = cap | _ => True end) os vs.
+Proof. exact oer_helpers_in_bounds_dec. Qed.
+Print Assumptions C10_oer_helpers_in_bounds_dec.
+
+Theorem C10_oer_dec_overflow_latches : forall s o k, olive s -> odop_ok o -> odop_len o = Some k ->
+  size s < pos s + k ->
+  exists s' v, run_odop s o = COk (s', v) /\ olatched s' /\ oget_result s' = - EOUTOFDATA.
+Proof. exact oer_dec_overflow_latches. Qed.
+Print Assumptions C10_oer_dec_overflow_latches.
+
+Theorem C10_oer_dec_latch_sticky : forall os1 os2 s s1 vs1, owf s ->
+  Forall odop_ok (os1 ++ os2) -> run_odops s os1 = COk (s1, vs1) -> olatched s1 ->
+  exists vs2, run_odops s (os1 ++ os2) = COk (s1, vs1 ++ vs2) /\ length vs2 = length os2.
+Proof. exact oer_dec_latch_sticky. Qed.
+Print Assumptions C10_oer_dec_latch_sticky.
+
+Theorem C10_odop_matches_spec : forall s o k, olive s -> odop_ok o -> odop_len o = Some k ->
+  pos s + k <= size s -> run_odop s o = COk (adv s k, odop_val s o).
+Proof. exact odop_matches_spec. Qed.
+Print Assumptions C10_odop_matches_spec.
+
+Theorem C10_oer_fixed_roundtrip : forall s o d v s', olive s -> oint_pair o d v ->
+  pos s + oeop_bytes o <= size s -> run_oeop s o = COk s' ->
+  run_odop (mkCur (buf s') (size s) (pos s)) d =
+  COk (mkCur (buf s') (size s) (pos s + oeop_bytes o), [v]).
+Proof. exact oer_fixed_roundtrip. Qed.
+Print Assumptions C10_oer_fixed_roundtrip.
+
+Theorem C10_oer_uint_roundtrip : forall s v k s', olive s -> 1 <= k <= 4 -> 0 <= v < 256 ^ k ->
+  pos s + k <= size s -> oappend_uint s v k = COk s' ->
+  oread_uint (mkCur (buf s') (size s) (pos s)) k = COk (mkCur (buf s') (size s) (pos s + k), v).
+Proof. exact oer_uint_roundtrip. Qed.
+Print Assumptions C10_oer_uint_roundtrip.
+
+Theorem C10_oer_length_determinant_roundtrip : forall s n s', olive s -> 0 <= n < 4294967296 ->
+  pos s + length_determinant_length n <= size s -> oappend_length_determinant s n = COk s' ->
+  oread_length_determinant (mkCur (buf s') (size s) (pos s)) =
+  COk (mkCur (buf s') (size s) (pos s + length_determinant_length n), n).
+Proof. exact oer_length_determinant_roundtrip. Qed.
+Print Assumptions C10_oer_length_determinant_roundtrip.
+
+Theorem C10_oer_long_uint_roundtrip : forall s v k s', olive s -> 0 <= k <= 8 -> 0 <= v < 256 ^ k ->
+  pos s + k <= size s -> oappend_long_uint s v k = COk s' ->
+  oread_long_uint (mkCur (buf s') (size s) (pos s)) k = COk (mkCur (buf s') (size s) (pos s + k), v).
+Proof. exact oer_long_uint_roundtrip. Qed.
+Print Assumptions C10_oer_long_uint_roundtrip.
+
+Theorem C10_oer_int_roundtrip : forall s v k s', olive s -> 1 <= k <= 4 ->
+  - (256 ^ k) / 2 <= v < 256 ^ k / 2 ->
+  pos s + k <= size s -> oappend_int s v k = COk s' ->
+  oread_int (mkCur (buf s') (size s) (pos s)) k = COk (mkCur (buf s') (size s) (pos s + k), v).
+Proof. exact oer_int_roundtrip. Qed.
+Print Assumptions C10_oer_int_roundtrip.
+
+Theorem C10_oer_enumerated_value_length_spec : forall v, -2147483648 <= v < 2147483648 ->
+  (enumerated_value_length v = 0 <-> 0 <= v < 128) /\
+  (~ (0 <= v < 128) ->
+   1 <= enumerated_value_length v <= 4 /\
+   - (256 ^ enumerated_value_length v) / 2 <= v < 256 ^ enumerated_value_length v / 2 /\
+   forall k, 1 <= k <= 4 -> - (256 ^ k) / 2 <= v < 256 ^ k / 2 -> enumerated_value_length v <= k).
+Proof. exact oer_enumerated_value_length_spec. Qed.
+Print Assumptions C10_oer_enumerated_value_length_spec.
+
+Theorem C10_oer_length_determinant_is_x696 : forall n, 0 <= n < 4294967296 ->
+  Some (oeop_spec (OLenDet n)) = Oer.X696.x_length n.
+Proof. exact oer_length_determinant_is_x696. Qed.
+Print Assumptions C10_oer_length_determinant_is_x696.
+
+(** * Textual tie: the helper text in /repo is the one the model was written against *)
+Theorem C10_helper_text : oer_helper_norm = oer_expected_norm.
+Proof. exact oer_helper_text_is_the_modelled_one. Qed.
+Print Assumptions C10_helper_text.
+
+(** * Semantic tie: the IR translation of every helper function of /repo's oer_functions.py computes the model function *)
+
+Theorem C10_oir_encoder_abort : forall fuel b sz ps e, (20 <= fuel)%nat ->
+  in_s64 sz = true -> in_s64 ps = true -> -9223372036854775807 <= e <= 9223372036854775807 ->
+  run P fuel "encoder_abort" [cursor_val b sz ps; VInt e] =
+  ROk (None, [cur_val (abort (mkCur b sz ps) e); VInt e]).
+Proof. exact oir_encoder_abort. Qed.
+Print Assumptions C10_oir_encoder_abort.
+
+Theorem C10_oir_decoder_abort : forall fuel b sz ps e, (20 <= fuel)%nat ->
+  in_s64 sz = true -> in_s64 ps = true -> -9223372036854775807 <= e <= 9223372036854775807 ->
+  run P fuel "decoder_abort" [cursor_val b sz ps; VInt e] =
+  ROk (None, [cur_val (abort (mkCur b sz ps) e); VInt e]).
+Proof. exact oir_decoder_abort. Qed.
+Print Assumptions C10_oir_decoder_abort.
+
+Theorem C10_oir_encoder_alloc : forall fuel b sz ps n, (30 <= fuel)%nat ->
+  in_s64 sz = true -> in_s64 ps = true ->
+  run P fuel "encoder_alloc" [cursor_val b sz ps; VInt n] =
+  match oencoder_alloc (mkCur b sz ps) n with
+  | COk (s', p) => ROk (Some p, [cur_val s'; VInt n])
+  | COob => RFail FOob | CUb => RFail FUb end.
+Proof. exact oir_encoder_alloc. Qed.
+Print Assumptions C10_oir_encoder_alloc.
+
+Theorem C10_oir_decoder_free : forall fuel b sz ps n, (30 <= fuel)%nat ->
+  in_s64 sz = true -> in_s64 ps = true ->
+  run P fuel "decoder_free" [cursor_val b sz ps; VInt n] =
+  match odecoder_free (mkCur b sz ps) n with
+  | COk (s', p) => ROk (Some p, [cur_val s'; VInt n])
+  | COob => RFail FOob | CUb => RFail FUb end.
+Proof. exact oir_decoder_free. Qed.
+Print Assumptions C10_oir_decoder_free.
+
+Theorem C10_oir_encoder_init : forall fuel v1 v2 v3 b n, (20 <= fuel)%nat ->
+  run P fuel "encoder_init" [rec3 v1 v2 v3; bytes_val b; VInt n] =
+  ROk (None, [cur_val (oinit b n); bytes_val b; VInt n]).
+Proof. exact oir_encoder_init. Qed.
+Print Assumptions C10_oir_encoder_init.
+
+Theorem C10_oir_decoder_init : forall fuel v1 v2 v3 b n, (20 <= fuel)%nat ->
+  run P fuel "decoder_init" [rec3 v1 v2 v3; bytes_val b; VInt n] =
+  ROk (None, [cur_val (oinit b n); bytes_val b; VInt n]).
+Proof. exact oir_decoder_init. Qed.
+Print Assumptions C10_oir_decoder_init.
+
+Theorem C10_oir_encoder_get_result : forall fuel b sz ps, (20 <= fuel)%nat -> in_s64 ps = true ->
+  run P fuel "encoder_get_result" [cursor_val b sz ps] =
+  ROk (Some (oget_result (mkCur b sz ps)), [cursor_val b sz ps]).
+Proof. exact oir_encoder_get_result. Qed.
+Print Assumptions C10_oir_encoder_get_result.
+
+Theorem C10_oir_decoder_get_result : forall fuel b sz ps, (20 <= fuel)%nat -> in_s64 ps = true ->
+  run P fuel "decoder_get_result" [cursor_val b sz ps] =
+  ROk (Some (oget_result (mkCur b sz ps)), [cursor_val b sz ps]).
+Proof. exact oir_decoder_get_result. Qed.
+Print Assumptions C10_oir_decoder_get_result.
+
+Theorem C10_oir_encoder_append_bytes : forall fuel b sz ps src n, (40 <= fuel)%nat ->
+  in_s64 sz = true -> in_s64 ps = true ->
+  run P fuel "encoder_append_bytes" [cursor_val b sz ps; bytes_val src; VInt n] =
+  match oappend_bytes (mkCur b sz ps) src n with
+  | COk s' => ROk (None, [cur_val s'; bytes_val src; VInt n])
+  | COob => RFail FOob | CUb => RFail FUb end.
+Proof. exact oir_encoder_append_bytes. Qed.
+Print Assumptions C10_oir_encoder_append_bytes.
+
+Theorem C10_oir_decoder_read_bytes : forall fuel b sz ps dst n, (40 + Z.to_nat (u64 n) <= fuel)%nat ->
+  in_s64 sz = true -> in_s64 ps = true ->
+  run P fuel "decoder_read_bytes" [cursor_val b sz ps; bytes_val dst; VInt n] =
+  match oread_bytes (mkCur b sz ps) dst n with
+  | COk (s', d) => ROk (None, [cur_val s'; bytes_val d; VInt n])
+  | COob => RFail FOob | CUb => RFail FUb end.
+Proof. exact oir_decoder_read_bytes. Qed.
+Print Assumptions C10_oir_decoder_read_bytes.
+
+Theorem C10_oir_encoder_append_uint8 : enc_run "encoder_append_uint8" oappend_uint8 60.
+Proof. exact oir_encoder_append_uint8. Qed.
+Print Assumptions C10_oir_encoder_append_uint8.
+
+Theorem C10_oir_encoder_append_uint16 : enc_run "encoder_append_uint16" oappend_uint16 60.
+Proof. exact oir_encoder_append_uint16. Qed.
+Print Assumptions C10_oir_encoder_append_uint16.
+
+Theorem C10_oir_encoder_append_uint32 : enc_run "encoder_append_uint32" oappend_uint32 60.
+Proof. exact oir_encoder_append_uint32. Qed.
+Print Assumptions C10_oir_encoder_append_uint32.
+
+Theorem C10_oir_encoder_append_uint64 : enc_run "encoder_append_uint64" oappend_uint64 60.
+Proof. exact oir_encoder_append_uint64. Qed.
+Print Assumptions C10_oir_encoder_append_uint64.
+
+Theorem C10_oir_encoder_append_int8 : enc_run "encoder_append_int8" oappend_int8 60.
+Proof. exact oir_encoder_append_int8. Qed.
+Print Assumptions C10_oir_encoder_append_int8.
+
+Theorem C10_oir_encoder_append_int16 : enc_run "encoder_append_int16" oappend_int16 60.
+Proof. exact oir_encoder_append_int16. Qed.
+Print Assumptions C10_oir_encoder_append_int16.
+
+Theorem C10_oir_encoder_append_int32 : enc_run "encoder_append_int32" oappend_int32 60.
+Proof. exact oir_encoder_append_int32. Qed.
+Print Assumptions C10_oir_encoder_append_int32.
+
+Theorem C10_oir_encoder_append_int64 : enc_run "encoder_append_int64" oappend_int64 60.
+Proof. exact oir_encoder_append_int64. Qed.
+Print Assumptions C10_oir_encoder_append_int64.
+
+Theorem C10_oir_encoder_append_float : enc_run "encoder_append_float" oappend_float 60.
+Proof. exact oir_encoder_append_float. Qed.
+Print Assumptions C10_oir_encoder_append_float.
+
+Theorem C10_oir_encoder_append_double : enc_run "encoder_append_double" oappend_double 60.
+Proof. exact oir_encoder_append_double. Qed.
+Print Assumptions C10_oir_encoder_append_double.
+
+Theorem C10_oir_encoder_append_bool :
+  enc_run "encoder_append_bool" (fun s z => oappend_bool s (negb (z =? 0))) 60.
+Proof. exact oir_encoder_append_bool. Qed.
+Print Assumptions C10_oir_encoder_append_bool.
+
+Theorem C10_oir_decoder_read_uint8 : dec_run "decoder_read_uint8" oread_uint8 60.
+Proof. exact oir_decoder_read_uint8. Qed.
+Print Assumptions C10_oir_decoder_read_uint8.
+
+Theorem C10_oir_decoder_read_uint16 : dec_run "decoder_read_uint16" oread_uint16 60.
+Proof. exact oir_decoder_read_uint16. Qed.
+Print Assumptions C10_oir_decoder_read_uint16.
+
+Theorem C10_oir_decoder_read_uint32 : dec_run "decoder_read_uint32" oread_uint32 60.
+Proof. exact oir_decoder_read_uint32. Qed.
+Print Assumptions C10_oir_decoder_read_uint32.
+
+Theorem C10_oir_decoder_read_uint64 : dec_run "decoder_read_uint64" oread_uint64 60.
+Proof. exact oir_decoder_read_uint64. Qed.
+Print Assumptions C10_oir_decoder_read_uint64.
+
+Theorem C10_oir_decoder_read_int8 : dec_run "decoder_read_int8" oread_int8 60.
+Proof. exact oir_decoder_read_int8. Qed.
+Print Assumptions C10_oir_decoder_read_int8.
+
+Theorem C10_oir_decoder_read_int16 : dec_run "decoder_read_int16" oread_int16 60.
+Proof. exact oir_decoder_read_int16. Qed.
+Print Assumptions C10_oir_decoder_read_int16.
+
+Theorem C10_oir_decoder_read_int32 : dec_run "decoder_read_int32" oread_int32 60.
+Proof. exact oir_decoder_read_int32. Qed.
+Print Assumptions C10_oir_decoder_read_int32.
+
+Theorem C10_oir_decoder_read_int64 : dec_run "decoder_read_int64" oread_int64 60.
+Proof. exact oir_decoder_read_int64. Qed.
+Print Assumptions C10_oir_decoder_read_int64.
+
+Theorem C10_oir_decoder_read_float : dec_run "decoder_read_float" oread_float 60.
+Proof. exact oir_decoder_read_float. Qed.
+Print Assumptions C10_oir_decoder_read_float.
+
+Theorem C10_oir_decoder_read_double : dec_run "decoder_read_double" oread_double 60.
+Proof. exact oir_decoder_read_double. Qed.
+Print Assumptions C10_oir_decoder_read_double.
+
+Theorem C10_oir_decoder_read_bool : dec_run "decoder_read_bool" oread_bool_z 60.
+Proof. exact oir_decoder_read_bool. Qed.
+Print Assumptions C10_oir_decoder_read_bool.
+
+Theorem C10_oir_length_determinant_length : forall fuel v, (30 <= fuel)%nat ->
+  run P fuel "length_determinant_length" [VInt v] =
+  ROk (Some (length_determinant_length v), [VInt v]).
+Proof. exact oir_length_determinant_length. Qed.
+Print Assumptions C10_oir_length_determinant_length.
+
+Theorem C10_oir_minimum_uint_length : forall fuel v, (30 <= fuel)%nat ->
+  run P fuel "minimum_uint_length" [VInt v] =
+  ROk (Some (minimum_uint_length v), [VInt v]).
+Proof. exact oir_minimum_uint_length. Qed.
+Print Assumptions C10_oir_minimum_uint_length.
+
+Theorem C10_oir_enumerated_value_length : forall fuel v, (30 <= fuel)%nat ->
+  run P fuel "enumerated_value_length" [VInt v] =
+  ROk (Some (enumerated_value_length v), [VInt v]).
+Proof. exact oir_enumerated_value_length. Qed.
+Print Assumptions C10_oir_enumerated_value_length.
+
+Theorem C10_oir_encoder_append_uint : forall fuel b sz ps v k, (80 <= fuel)%nat ->
+  in_s64 sz = true -> in_s64 ps = true ->
+  run P fuel "encoder_append_uint" [cursor_val b sz ps; VInt v; VInt k] =
+  match oappend_uint (mkCur b sz ps) v k with
+  | COk s' => ROk (None, [cur_val s'; VInt v; VInt k])
+  | COob => RFail FOob | CUb => RFail FUb end.
+Proof. exact oir_encoder_append_uint. Qed.
+Print Assumptions C10_oir_encoder_append_uint.
+
+Theorem C10_oir_encoder_append_int : forall fuel b sz ps v k, (80 <= fuel)%nat ->
+  in_s64 sz = true -> in_s64 ps = true ->
+  run P fuel "encoder_append_int" [cursor_val b sz ps; VInt v; VInt k] =
+  match oappend_int (mkCur b sz ps) v k with
+  | COk s' => ROk (None, [cur_val s'; VInt v; VInt k])
+  | COob => RFail FOob | CUb => RFail FUb end.
+Proof. exact oir_encoder_append_int. Qed.
+Print Assumptions C10_oir_encoder_append_int.
+
+Theorem C10_oir_encoder_append_length_determinant :
+  enc_run "encoder_append_length_determinant" oappend_length_determinant 80.
+Proof. exact oir_encoder_append_length_determinant. Qed.
+Print Assumptions C10_oir_encoder_append_length_determinant.
+
+Theorem C10_oir_decoder_read_uint : dec_run_v "decoder_read_uint" oread_uint 90.
+Proof. exact oir_decoder_read_uint. Qed.
+Print Assumptions C10_oir_decoder_read_uint.
+
+Theorem C10_oir_decoder_read_int : dec_run_v "decoder_read_int" oread_int 90.
+Proof. exact oir_decoder_read_int. Qed.
+Print Assumptions C10_oir_decoder_read_int.
+
+Theorem C10_oir_decoder_read_length_determinant :
+  dec_run "decoder_read_length_determinant" oread_length_determinant 90.
+Proof. exact oir_decoder_read_length_determinant. Qed.
+Print Assumptions C10_oir_decoder_read_length_determinant.
+
+Theorem C10_oir_decoder_read_long_uint : forall fuel b sz ps k, (90 + Z.to_nat (u8 k) <= fuel)%nat ->
+  in_s64 sz = true -> in_s64 ps = true -> bytes_ok b ->
+  run P fuel "decoder_read_long_uint" [cursor_val b sz ps; VInt k] =
+  match oread_long_uint (mkCur b sz ps) k with
+  | COk (s', r) => ROk (Some r, [cur_val s'; VInt k])
+  | COob => RFail FOob | CUb => RFail FUb end.
+Proof. exact oir_decoder_read_long_uint. Qed.
+Print Assumptions C10_oir_decoder_read_long_uint.
+
+Theorem C10_oir_encoder_append_long_uint : forall fuel b sz ps v k, (90 <= fuel)%nat ->
+  in_s64 sz = true -> in_s64 ps = true ->
+  run P fuel "encoder_append_long_uint" [cursor_val b sz ps; VInt v; VInt k] =
+  match oappend_long_uint (mkCur b sz ps) v k with
+  | COk s' => ROk (None, [cur_val s'; VInt v; VInt k])
+  | COob => RFail FOob | CUb => RFail FUb end.
+Proof. exact oir_encoder_append_long_uint. Qed.
+Print Assumptions C10_oir_encoder_append_long_uint.
+
+Theorem C10_oir_decoder_read_tag : forall fuel b sz ps, (90 + length b <= fuel)%nat ->
+  in_s64 sz = true -> in_s64 ps = true -> bytes_ok b ->
+  run P fuel "decoder_read_tag" [cursor_val b sz ps] =
+  match oread_tag (mkCur b sz ps) with
+  | COk (s', r) => ROk (Some r, [cur_val s'])
+  | COob => RFail FOob | CUb => RFail FUb end.
+Proof. exact oir_decoder_read_tag. Qed.
+Print Assumptions C10_oir_decoder_read_tag.
+
+(** * Static length arithmetic of the generator *)
+
+Theorem C10_gen_length_determinant_length_fixed_sound : forall n, 0 <= n < 4294967296 ->
+  gen_length_determinant_length_fixed n = x696_length_determinant_octets n /\
+  gen_length_determinant_length_fixed n = length_determinant_length n.
+Proof. exact gen_length_determinant_length_fixed_sound. Qed.
+Print Assumptions C10_gen_length_determinant_length_fixed_sound.
+
 Theorem C10_gen_length_determinant_length_refuted :
   exists n, 0 <= n < 4294967296 /\ gen_length_determinant_length n <> x696_length_determinant_octets n /\
             gen_length_determinant_length n <> length_determinant_length n.
 Proof. exact gen_length_determinant_length_refuted. Qed.
 Print Assumptions C10_gen_length_determinant_length_refuted.
+
+Theorem C10_gen_length_determinant_length_wrong_region : forall n, 0 <= n < 4294967296 ->
+  (gen_length_determinant_length n <> x696_length_determinant_octets n <-> 1677726 <= n < 16777216).
+Proof. exact gen_length_determinant_length_wrong_region. Qed.
+Print Assumptions C10_gen_length_determinant_length_wrong_region.
+
+Theorem C10_mask_length_spec : forall k, 0 <= k -> 8 * additions_mask_length k - 8 < k <= 8 * additions_mask_length k.
+Proof. exact mask_length_spec. Qed.
+Print Assumptions C10_mask_length_spec.
+
+Theorem C10_gen_enumerated_value_length_agrees : forall v k, -2147483648 <= v < 2147483648 ->
+  gen_enumerated_value_length v = Some k ->
+  (0 <= v < 128 -> enumerated_value_length v = 0 /\ k = 1) /\
+  (~ (0 <= v < 128) -> enumerated_value_length v = k).
+Proof. exact gen_enumerated_value_length_agrees. Qed.
+Print Assumptions C10_gen_enumerated_value_length_agrees.
+
+Theorem C10_integer_static_length_is_x696 : forall lo hi w,
+  lo <= hi -> type_length_fixed lo hi = Some w -> x696_int_octets lo hi = Some (w / 8).
+Proof. exact integer_static_length_is_x696. Qed.
+Print Assumptions C10_integer_static_length_is_x696.
+
+Theorem C10_integer_static_length_unrepaired_refuted :
+  exists lo hi w, lo <= hi /\ type_length lo hi = Some w /\ x696_int_octets lo hi <> Some (w / 8).
+Proof. exact integer_static_length_unrepaired_refuted. Qed.
+Print Assumptions C10_integer_static_length_unrepaired_refuted.
+
+(** Non-vacuity *)
+Example C10_hypotheses_inhabited :
+  let s := mkCur [0; 0; 0; 0] 4 0 in
+  olive s /\
+  run_oeops s [OU8 171; OLenDet 2; OBool true] = COk (mkCur [171; 2; 255; 0] 4 3).
+Proof. exact oer_helpers_example. Qed.
+Print Assumptions C10_hypotheses_inhabited.
